@@ -249,6 +249,60 @@ def gen(ctx, d, vs, hs):
     return list(res.tagged("CASE"))
 
 
+KNOWN_ULP = "decimal-border-edge-float-quotient-crosses-border"
+
+
+def decimal_edges(col, item):
+    """Rectangle edges written as DECIMALS that name a cell border (multiples of 0.05 degree: 63.85, -127.7, ...).  The double
+    nearest to such a decimal lies a few 1e-15 degrees beside the border, so the covering law of SrtmProps is evaluated at the
+    EXACT rational value of the double (row coordinate p = (90 - lat) * 120, column coordinate (lon + 180) * 120): first row /
+    column = the cell containing the edge, last = the cell containing it or, on a border, the one before.  An edge within
+    1e-6 cell of a border may also be treated as lying ON it.  Anything else is a violation - filed under the known finding
+    KNOWN_ULP exactly when the double-precision quotient (90 - lat) / dlat resp. (lon + 180) / dlon that get_native_grids
+    forms falls into another cell than the exact quotient AND the answer is the one that quotient names."""
+    from fractions import Fraction as F
+    from typhon.topography import SRTM30
+    start, stop, width = item
+    d = 1.0 / 120.0
+
+    def idx(p, south):
+        fl = p.numerator // p.denominator
+        return (fl - 1 if p == fl else fl) if south else fl
+
+    def acc(p, south):
+        out = {idx(p, south)}
+        r = round(p)
+        if abs(p - r) < F(1, 10 ** 6):
+            out.add(r - 1 if south else r)
+        return out
+    for k in range(start, stop):
+        W = round(-180 + 0.05 * k, 2)
+        E = round(W + width, 2)
+        L = round(-59.95 + 0.05 * ((k * 7) % 2990), 2)
+        S = round(L - width, 2)
+        if E > 180 or S < -60:
+            continue
+        rep = {"abstract": {"decimal_edges": [S, W, L, E]}, "concrete": {"lat_min": S, "lon_min": W, "lat_max": L, "lon_max": E}}
+        try:
+            lats, lons = SRTM30.get_native_grids(S, W, L, E)
+            got = [int(np.rint((90 - lats[0]) / d - 0.5)), int(np.rint((90 - lats[-1]) / d - 0.5)),
+                   int(np.rint((lons[0] + 180) / d - 0.5)), int(np.rint((lons[-1] + 180) / d - 0.5))]
+        except Exception as ex:
+            col.violation("get_native_grids-raises-" + type(ex).__name__ + "-decimal-edge", dict(rep, observed=repr(ex)[:200]))
+            continue
+        col.count(1)
+        edges = [("north", (90 - F(L)) * 120, (90 - L) / SRTM30._dlat, False), ("south", (90 - F(S)) * 120, (90 - S) / SRTM30._dlat, True),
+                 ("west", (F(W) + 180) * 120, (W + 180.0) / SRTM30._dlon, False), ("east", (F(E) + 180) * 120, (E + 180) / SRTM30._dlon, True)]
+        for g, (side, p, fq, south) in zip(got, edges):
+            if g in acc(p, south):
+                continue
+            if idx(F(float(fq)), south) != idx(p, south) and g == idx(F(float(fq)), south):
+                col.violation(KNOWN_ULP, dict(rep, side=side, expected=sorted(acc(p, south)), observed=g))
+            else:
+                col.violation("wrong-block-decimal-border-edge-" + side, dict(rep, expected=sorted(acc(p, south)), observed=g))
+    col.nontrivial.add(("decimal-edges", start, width))
+
+
 def run(ctx):
     quick = ctx.tier == "quick"
     ctx.rule = ("(unaligned edges are placed at the middle of their cell and a nanodegree from its lower / upper border) "
@@ -287,6 +341,7 @@ def run(ctx):
             c["all_variants"] = n % 3 == 0
     pmap(ctx, replay, cases, procs=6, chunk=5)
     pmap(ctx, grids_check, [0], procs=1)
+    pmap(ctx, decimal_edges, [(a, a + 900, w) for w in ((0.1,) if quick else (0.1, 0.15, 0.3, 1.05)) for a in range(0, 7200, 900)])
     with open(os.path.join(d, "MCCache.cfg"), "w") as f:
         f.write("CONSTANTS Tiles = {1, 2} MaxLen = 3\nSPECIFICATION Spec\nINVARIANT AtMostOnce\nINVARIANT Emit\n")
     res = ctx.tlc(d, "TileCache", "MCCache.cfg", workers=1, timeout=300)
